@@ -378,11 +378,14 @@ func (p *Persister) flushNow(ctx context.Context, batch map[string]persistData, 
 
 	defer tx.Discard()
 	for id, data := range batch {
-		err := data.storeFunc(ctx)
-		if err != nil {
-			p.logger.Err(ctx, err).
+		// Assign to the outer err (do not shadow it): a failed write must
+		// prevent the commit below and reach the callbacks, otherwise a source
+		// would be acked for a position that never reached the store.
+		if setErr := data.storeFunc(ctx); setErr != nil {
+			p.logger.Err(ctx, setErr).
 				Str(log.ConnectorIDField, id).
 				Msg("error while saving connector")
+			err = setErr
 		}
 	}
 	if err == nil {
